@@ -489,6 +489,8 @@ def fmt_val(v):
     import math
     if isinstance(v, float) and math.isnan(v):
         return "nan"
+    if abs(float(v)) >= 2 ** 24:
+        return "big"            # float32 features are not exact from 2**24 on: not compared (DESIGN §7)
     if float(v) != int(v):
         return repr(float(v))
     return str(int(v))
